@@ -112,6 +112,12 @@ def lean_imports(mods):
 def lake_build(targets):
     with Lock("lean"):
         rc, out = sh(["lake", "build"] + list(targets), cwd=LEAN, timeout=3000)
+        if rc != 0:
+            # a build is deterministic: a module that really does not check fails again at once (only the failed
+            # module is re-elaborated); what a second attempt removes is a process killed on a loaded machine
+            # (seen once: a cold clone, eleven checks side by side, `lake build` non-zero with no error line)
+            rc, out2 = sh(["lake", "build"] + list(targets), cwd=LEAN, timeout=3000)
+            out = out2 if rc == 0 else out + "\n" + out2
     return rc == 0, out
 
 
